@@ -67,20 +67,20 @@ type SchedWorld struct {
 // Knobs bias the generator for a particular property.
 type Knobs struct {
 	MaxTypes, MaxPools, MaxNodes, MaxPending int
-	Reserved     bool    // generate reserved offerings
-	InterPod     float64 // probability that a pending pod carries an inter-pod constraint
-	NoPrefs      bool    // no preferred terms / ScheduleAnyway (C04, C19)
-	NoMinValues  bool
-	NoLimits     bool
-	Overrides    bool // capacity / overhead overrides on offerings
-	MinPools     int
-	NoDaemonSets bool
-	SingleTerm    bool // at most one required node-affinity term (no OR alternatives)
-	FriendlyPools bool // fewer taints / requirements so that several pools can host a pod
-	EasyPods      bool // mostly small pods with few selectors
-	NoSoftTaints    bool // no PreferNoSchedule taints on pools
-	CustomKeyHeavy  bool // pools use many operators on user-defined label keys
-	MoreInitialized bool // bias existing nodes to initialized, healthy, managed ones (disruption worlds)
+	Reserved                                 bool    // generate reserved offerings
+	InterPod                                 float64 // probability that a pending pod carries an inter-pod constraint
+	NoPrefs                                  bool    // no preferred terms / ScheduleAnyway (C04, C19)
+	NoMinValues                              bool
+	NoLimits                                 bool
+	Overrides                                bool // capacity / overhead overrides on offerings
+	MinPools                                 int
+	NoDaemonSets                             bool
+	SingleTerm                               bool // at most one required node-affinity term (no OR alternatives)
+	FriendlyPools                            bool // fewer taints / requirements so that several pools can host a pod
+	EasyPods                                 bool // mostly small pods with few selectors
+	NoSoftTaints                             bool // no PreferNoSchedule taints on pools
+	CustomKeyHeavy                           bool // pools use many operators on user-defined label keys
+	MoreInitialized                          bool // bias existing nodes to initialized, healthy, managed ones (disruption worlds)
 }
 
 func DefaultKnobs() Knobs {
